@@ -884,6 +884,11 @@ class BaseOrchestrator(ABC):
             DistributedInvocation.from_parent(call, parent_invocation) for call in calls
         ]
         self.register_new_invocations(invocations)
+        if calls[0].task.conf.running_concurrency != ConcurrencyControlType.DISABLED:
+            # Same as the single-call path: running concurrency control looks invocations
+            # up by their indexed arguments
+            for invocation in invocations:
+                self.index_arguments_for_concurrency_control(invocation)
         return invocations
 
     @abstractmethod
